@@ -132,6 +132,20 @@ fn cases(max_n: usize) -> Vec<Case> {
         }
     }
     }
+    // the root as question name and as owner name (5-byte question, 11-byte records)
+    {
+        let root = vec![0u8];
+        let mut m = base_msg(&root, T_NS, true);
+        m.an.push(a_rec(&root, 100, [1, 2, 3, 4]));
+        m.an.push(name_rec(&root, T_NS, 101, &nm("a.root-servers.net")));
+        m.ns.push(name_rec(&root, T_NS, 102, &nm("b.root-servers.net")));
+        m.ar.push(opt_variants()[0].clone());
+        for strat in [Strategy::Max, Strategy::Plain] {
+            for (sec, n) in [(Sec::Question, 1usize), (Sec::Answer, 2), (Sec::Authority, 1)] {
+                v.push(Case { bytes: encode(&m, strat), sec, incl_opt: false, prep: false, tag: format!("sec={} opt=last n={} ptr={} root=1", sec_name(sec), n, (strat != Strategy::Plain) as u8) });
+            }
+        }
+    }
     // packets longer than 256 bytes with names at 256-aligned offsets (hand-assembled, see gen::aligned_pointer_packets)
     let al = aligned_pointer_packets();
     for (i, tag) in [(4usize, "n256"), (5, "n256opt"), (13, "n512opt")] {
